@@ -537,6 +537,9 @@ func ruleDFCOVER(c *Ctx, r *Report) {
 					k := c.key(call.Call.Args[0], p.Env)
 					if strings.Contains(k, "expr.Column") && strings.Contains(k, "$1") {
 						r.ok("DF-COLUMN", "wrapper|ctor", c.instrPos(p.Ret), "Equals(Column($1), $0)")
+					} else if k == "$1" {
+						// a plain string on the left of Equals: the general constructor wraps it in a Column
+						r.ok("DF-COLUMN", "wrapper|ctor", c.instrPos(p.Ret), "Equals($1, $0) — the general constructor wraps string fields of column operators in a Column")
 					} else {
 						r.bad("DF-COLUMN", "wrapper|ctor", c.instrPos(p.Ret), "the default field must be carried as an expr.Column so that it is quoted as an identifier; got "+k)
 					}
